@@ -113,7 +113,7 @@ def cube (q : Rat) : Rat := q * q * q
 
 /-- nearest integer to the real cube root of `q ≥ 0` (ties upward): the largest `k` with
 `(k − ½)³ ≤ q` -/
-def roundCbrt (q : Rat) : Nat := findIdx (fun k => cube ((k : Rat) - 1/2)) q (q.ceil.toNat + 1)
+def roundCbrt (q : Rat) : Nat := findIdx (fun k => cube ((k : Rat) - 1/2)) q (q.floor.toNat + 2)
 
 /-- cube of the quantity `_calculate_new_n` rounds on axis `i`:
 `(E_i / (l_i · (dV / Π l)^{1/3}))³ = E_i³ · Π l / (l_i³ · dV)` -/
@@ -218,9 +218,31 @@ def locOf (f : Fld) (p : V3) : Option Loc :=
   locate (gridNode f.mesh 0) (gridNode f.mesh 1) (gridNode f.mesh 2)
     (f.mesh.nAt 0) (f.mesh.nAt 1) (f.mesh.nAt 2) p
 
+/-- all components of the interpolated rotated original at `p` (relative to the centre) -/
+def valuesAt (f : Fld) (R : M3) (ord : List Nat) (p : V3) : List Rat :=
+  (fun loc => tab f.nvdim fun c => interpAt (padded f R ord c) loc) (locOf f p)
+
 /-- `_map_and_interpolate` at one target cell -/
 def resampleAt (f : Fld) (R : M3) (ord : List Nat) (nm : Mesh) (idx : List Nat) : List Rat :=
-  (fun loc => tab f.nvdim fun c => interpAt (padded f R ord c) loc) (locOf f (backPos f R nm idx))
+  valuesAt f R ord (backPos f R nm idx)
+
+/-! ### spec layer: what the property calls "the linear interpolation of the original" -/
+
+/-- component `c` of the original (unrotated) data at padded node `(i, j, k)` -/
+def paddedOrig (f : Fld) (c i j k : Nat) : Rat :=
+  (f.data.get [padIdx (f.mesh.nAt 0) i, padIdx (f.mesh.nAt 1) j, padIdx (f.mesh.nAt 2) k]).getD c 0
+
+/-- the interpolant of the ORIGINAL field at `p` (relative to the centre), all components -/
+def origAt (f : Fld) (p : V3) : List Rat :=
+  (fun loc => tab f.nvdim fun c => interpAt (paddedOrig f c) loc) (locOf f p)
+
+/-- centre of cell `k` on axis `a`, relative to the region centre -/
+def centreRel (m : Mesh) (a k : Nat) : Rat := m.region.lo a + ((k : Rat) + 1/2) * m.cellAt a - centreAt m a
+
+/-- trilinear interpolation between the centres of the cells `k` and `k + 1` (per axis) at
+normalised offsets `t` -/
+def cellInterp (f : Fld) (c k0 k1 k2 : Nat) (t0 t1 t2 : Rat) : Rat :=
+  sum8 t0 t1 t2 fun e0 e1 e2 => (f.data.get [k0 + e0, k1 + e1, k2 + e2]).getD c 0
 
 /-- the field `rotate` stores: new mesh, resampled values, everything valid, labels and
 mapping of the original, no unit -/
